@@ -1012,6 +1012,19 @@ def prep_self_for(rng, fs, base, refl, inplace):
         out.data[out.data == 0] = 2.0
     return out
 
+def guarded(chk, key, inp, f, *a):
+    """run one oracle; an exception that escapes it comes from an operation the property says must work (copy, fold of a copy,
+    slicing, …) on an input the generators built to be valid — it is reported as a failure of the property, not as a crash"""
+    try:
+        return f(*a)
+    except Exception as e:
+        import traceback
+        tb = traceback.extract_tb(e.__traceback__)
+        where = next(('%s:%d' % (fr.filename.split('/dadi/')[-1], fr.lineno) for fr in reversed(tb) if '/dadi/' in fr.filename), '?')
+        chk.l3(('crash', key))
+        chk.fail('%s:raises:%s' % (key, type(e).__name__), '%s: unexpected %r (raised at dadi/%s)' % (key, e, where), inp)
+        return None
+
 def run(chk, ctx):
     dadi = ctx['dadi']; driver = ctx['driver']; tier = ctx['tier']
     rng = common.Rng(ctx['seed'], 'C09')
@@ -1073,8 +1086,8 @@ def run(chk, ctx):
             chk.stat('d=%d' % d); chk.stat('parity=%d' % info['parity']); chk.stat('mask:' + info['mask']); chk.stat('data:' + info['data'])
             if 1 in info['shape']: chk.stat('shape-with-size-1-axis')
             chk.sample(dict(op='fold', **{k: v for k, v in info.items()}))
-            f = l3_fold(chk, ctx, fs, info)
             inp = describe(fs)
+            f = guarded(chk, 'fold', inp, l3_fold, chk, ctx, fs, info)
             k_compare(chk, 'fold', inp, lambda: fs.fold(), 'c09.fold ' + fs_toks(fs), driver)
             k_self_after(chk, 'fold:input-afterwards', dadi, fs, lambda s_: s_.fold(), 'c09.foldself', driver)
             k_self_after(chk, 'unfold:input-afterwards', dadi, fs, lambda s_: s_.unfold(), 'c09.unfoldself', driver)
@@ -1094,12 +1107,12 @@ def run(chk, ctx):
             pk = it % 5
             p = [0.0, 1.0, 0.5, float(rng.uniform(0, 1)), np.float64(rng.uniform(0, 1))][pk]
             chk.stat('p:' + ['0', '1', '0.5', 'float', 'np.float64'][pk])
-            l3_misid(chk, ctx, fs, p, info)
+            guarded(chk, 'misid', dict(fs=inp, p=float(p)), l3_misid, chk, ctx, fs, p, info)
             k_compare(chk, 'misid', dict(fs=inp, p=float(p)), lambda: dadi.Numerics.apply_anc_state_misid(fs, p),
                       'c09.misid %s %s' % (rat(float(p)), fs_toks(fs)), driver)
             qk = (it // 5) % 4
             q = [0.5, float(rng.uniform(0, 1)), 1.0, 0.0][qk]
-            l3_misid_algebra(chk, ctx, fs, p, q, info)
+            guarded(chk, 'misid:algebra', dict(fs=inp, p=float(p), q=float(q)), l3_misid_algebra, chk, ctx, fs, p, q, info)
             r_pq = Fraction(float(p)) + Fraction(float(q)) - 2 * Fraction(float(p)) * Fraction(float(q))
             k_compare(chk, 'misid:compose', dict(fs=inp, p=float(p), q=float(q)),
                       lambda: dadi.Numerics.apply_anc_state_misid(dadi.Numerics.apply_anc_state_misid(fs, p), q),
@@ -1117,10 +1130,10 @@ def run(chk, ctx):
                     chk.fail('misid_func:name', 'wrapped function name %r' % mf.__name__, dict(fs=inp))
             # unary + slicing (L3, slicing also K)
             for s in (fs, g):
-                l3_unary(chk, ctx, s, info)
-                k_unary(chk, dadi, s, driver)
+                guarded(chk, 'unary', describe(s), l3_unary, chk, ctx, s, info)
+                guarded(chk, 'unary', describe(s), k_unary, chk, dadi, s, driver)
                 idx, desc = gen_index(rng, s.shape)
-                r = l3_slice(chk, ctx, s, idx, info)
+                r = guarded(chk, 'slice', dict(fs=describe(s), index=repr(idx)), l3_slice, chk, ctx, s, idx, info)
                 if r is not None and np.ndim(r) > 0:
                     k_compare(chk, 'slice', dict(fs=describe(s), index=repr(idx)), lambda: s[idx],
                               'c09.slice %s %s' % (desc, fs_toks(s)), driver)
@@ -1146,7 +1159,7 @@ def run(chk, ctx):
                 inp = dict(method=name, fs=describe(fs), other_kind=okind,
                            other=describe(other) if ok_ == 'S' else (float(other) if ok_ == 'C' else dict(
                                data=np.asarray(getattr(other, 'data', other), dtype=float), mask=np.ma.getmaskarray(other).astype(int))))
-                l3_arith(chk, ctx, name, fs, other, ok_, info)
+                guarded(chk, 'arith:' + name, inp, l3_arith, chk, ctx, name, fs, other, ok_, info)
                 tgt = fs.copy()
                 line = 'c09.%s %s %s %s' % ('inplace' if inplace else 'binop', name, fs_toks(fs), operand_toks(other, ok_))
                 k_compare(chk, ('inplace:' if inplace else 'binop:') + name, inp, lambda: getattr(tgt, name)(other), line, driver)
@@ -1182,7 +1195,7 @@ def run(chk, ctx):
                 else: chk.k_bad('autofold:' + fname, dict(func=fname, data_folded=df, model_folded=mf_), impl, val, None)
     for rep in range(6 if not thorough else 40):
         for d in range(1, 4 if not thorough else 5):
-            l3_likelihood(chk, ctx, rng, d, tier)
+            guarded(chk, 'll', dict(d=d), l3_likelihood, chk, ctx, rng, d, tier)
 
 def replay(chk, ctx, data):
     """re-evaluate the failing input: rebuild the spectrum and run the oracle that produced the key"""
@@ -1196,7 +1209,9 @@ def replay(chk, ctx, data):
         if key.startswith('misid') and 'fs' in inp:
             fs = rebuild(dadi, inp['fs'])
             info = dict(d=fs.ndim, parity=int(sum(fs.shape) - fs.ndim) % 2, mask='replay', data='replay', shape=tuple(fs.shape))
-            l3_misid(chk, ctx, fs, inp['p'], info); return
+            l3_misid(chk, ctx, fs, inp['p'], info)
+            if 'q' in inp: l3_misid_algebra(chk, ctx, fs, inp['p'], inp['q'], info)
+            return
         if key.startswith('arith') and 'fs' in inp:
             fs = rebuild(dadi, inp['fs']); ok_ = inp['other_kind'].rstrip('x')
             o = inp['other']
